@@ -243,6 +243,20 @@ def lr_group(rng, gi, cfg=None, pure=False):
         g.compute_args()
         g.maydiverge = False
         return g
+    if rng.random() < 0.08:
+        # the rule twice in a row: what its abandoned last growth attempt touched is touched again by the second invocation,
+        # in the SAME rule:  S <- l:E m:E ; E <- l:E op 'n' {..} / 'n' {..} / op [^n]
+        opc = rng.choice([PLUS, MINUS, STAR_])
+        rec = g.seq([g.label(g.ref(2)), g.lit([opc]), g.lit([NN])])
+        rec = g.action(rec, err=rng.random() < 0.3) if rng.random() < 0.7 else rec
+        e_body = g.choice([rec, g.action(g.lit([NN]), err=rng.random() < 0.3), g.seq([g.lit([opc]), g.cls((NN,), (), True, False)])])
+        s_body = g.seq([g.label(g.ref(2)), g.label(g.ref(2))] + ([g.un("not", g.any())] if rng.random() < 0.5 else []))
+        g.rules = [g.action(s_body) if rng.random() < 0.5 else s_body, e_body]
+        g.lr = [0, 1]
+        g.disp = ["", ""]
+        g.compute_args()
+        g.maydiverge = False
+        return g
     height = rng.randint(1, 3)
     wrapped = rng.random() < 0.35
     off = 1 if wrapped else 0          # rule index of tower level L is off + L
